@@ -17,6 +17,9 @@ Go strings are byte strings: `Bytes = List UInt8`.  `for ndx, chr := range s` de
   ParseTupleString (MustParseTupleString = same, panics on error)  → `parseTupleString`
   IsSelfDefining / UsersetMatchTypeAndRelation                     → `isSelfDefining` / `usersetMatchTypeAndRelation`
 
+At the end: the string-only part of internal/validation/validation.go (ValidateObject / ValidateRelation /
+ValidateUser / ValidateUserObjectRelation, tupleset user shape) with the type system as an oracle — reusable for C18.
+
 The separator bytes and the `switch chr` tables are named constants here; `Props/C29.lean` ties each
 of them to the literals the extractor finds in the Go source (`Gen.TupleStr`).
 -/
@@ -278,5 +281,94 @@ def isSelfDefining (tk : TK) : Bool :=
 def usersetMatchTypeAndRelation (userset relation typee : Bytes) : Bool :=
   let (userObjectType, _, userRelation) := toUserParts userset
   relation == userRelation && typee == userObjectType
+
+/-! ### internal/validation/validation.go — the parts that only look at strings (reusable for C18)
+
+The type system is an oracle (`TypeSys`): `GetTypeDefinition` / `GetRelation` results are parameters. -/
+
+/-- outcome of `typesys.GetRelation(objectType, relation)` -/
+inductive RelLookup where
+  | found | typeUndefined | relationUndefined | otherErr
+  deriving DecidableEq, Repr
+
+structure TypeSys where
+  /-- `typesys.GetTypeDefinition(t)` finds the type -/
+  hasType : Bytes → Bool
+  getRelation : Bytes → Bytes → RelLookup
+  /-- `typesystem.IsSchemaVersionSupported(typesys.GetSchemaVersion())` -/
+  schemaSupported : Bool
+
+inductive ValErr where
+  | objectFormat            -- "invalid 'object' field format"
+  | objectTypedWildcard     -- "the 'object' field cannot reference a typed wildcard"
+  | typeNotFound (t : Bytes)
+  | relationMalformed       -- "the 'relation' field is malformed"
+  | relationNotFound (t r : Bytes)
+  | relationOther           -- any other error of GetRelation (returned as is by ValidateRelation)
+  | userMalformed           -- "the 'user' field is malformed"
+  | userNotObjectOrUserset  -- "the 'user' field must be an object … or an 'object#relation' or a typed wildcard"
+  | tuplesetWildcard        -- "unexpected wildcard relationship with tupleset relation"
+  | tuplesetUser            -- "unexpected user … with tupleset relation"
+  deriving DecidableEq, Repr
+
+/-- `ValidateObject` -/
+def validateObject (ts : TypeSys) (object : Bytes) : Option ValErr :=
+  if !isValidObject object then some .objectFormat
+  else
+    let (objectType, id) := splitObject object
+    if id = wildcard then some .objectTypedWildcard
+    else if !ts.hasType objectType then some (.typeNotFound objectType)
+    else none
+
+/-- `ValidateRelation` -/
+def validateRelation (ts : TypeSys) (object relation : Bytes) : Option ValErr :=
+  if !isValidRelation relation then some .relationMalformed
+  else
+    let objectType := getType object
+    match ts.getRelation objectType relation with
+    | .found => none
+    | .typeUndefined => some (.typeNotFound objectType)
+    | .relationUndefined => some (.relationNotFound objectType relation)
+    | .otherErr => some .relationOther
+
+/-- `ValidateUser` (note: in the userset branch an error of `GetRelation` other than the two known
+ones is swallowed, as in the source). -/
+def validateUser (ts : TypeSys) (user : Bytes) : Option ValErr :=
+  if !isValidUser user then some .userMalformed
+  else
+    let isObj := isValidObject user
+    let isUs := isObjectRelation user
+    let (userObject, userRelation) := splitObjectRelation user
+    let userObjectType := getType userObject
+    let schemaErr : Option ValErr :=
+      if ts.schemaSupported then
+        if !isObj && !isUs then some .userNotObjectOrUserset
+        else if !ts.hasType userObjectType then some (.typeNotFound userObjectType)
+        else none
+      else none
+    match schemaErr with
+    | some e => some e
+    | none =>
+      if isUs then
+        match ts.getRelation userObjectType userRelation with
+        | .typeUndefined => some (.typeNotFound userObjectType)
+        | .relationUndefined => some (.relationNotFound userObjectType userRelation)
+        | _ => none
+      else none
+
+/-- `ValidateUserObjectRelation`: user, then object, then relation. -/
+def validateUserObjectRelation (ts : TypeSys) (tk : TK) : Option ValErr :=
+  match validateUser ts tk.user with
+  | some e => some e
+  | none =>
+    match validateObject ts tk.object with
+    | some e => some e
+    | none => validateRelation ts tk.object tk.relation
+
+/-- the user-shape checks of `validateTuplesetRestrictions` (after the relation is known to be a tupleset) -/
+def tuplesetUserShape (user : Bytes) : Option ValErr :=
+  if isWildcard user then some .tuplesetWildcard
+  else if !isValidObject user then some .tuplesetUser
+  else none
 
 end OpenFGAVerif.Model.TupleStr
